@@ -388,7 +388,7 @@ pub(crate) async fn shared_rng_pairwise(
 /// i.e., shares of random authenticated bits.
 /// The two main steps of the protocol are running two-party oblivious transfers (OTs) for
 /// each pair of parties and then checking the validity of the MACs and keys by checking the XOR
-/// of a linear combination of the bits, keys and the MACs and then removing 2 * RHO objects,
+/// of a linear combination of the bits, keys and the MACs and then removing 4 * RHO objects,
 /// where RHO is the statistical security parameter.
 #[instrument(level=Level::DEBUG, skip_all, fields(
     num_auth_bits = l,
@@ -404,7 +404,12 @@ async fn fabitn(
     debug!("PI_aBit^n protocol of WRK17b");
     // Step 1) Pick random bit-string x of length lprime.
     let three_rho = 3 * RHO;
-    let lprime = l + three_rho;
+    // Step 3 opens 3 * RHO random parities of x. The bits that are thrown away in Step 4 have to
+    // hide the first l bits in all of these parities: with exactly as many throw-away bits as
+    // parities, the (public) check vectors restricted to the throw-away positions are linearly
+    // dependent with probability ~0.71, and each dependency reveals a linear relation among the
+    // returned bits. RHO additional throw-away bits reduce that probability to 2^-RHO.
+    let lprime = l + three_rho + RHO;
     let mut x: Vec<bool> = (0..lprime).map(|_| random()).collect();
     debug!("Generated local bitstring x of length {}", lprime);
     #[cfg(feature = "__verif")]
